@@ -2,6 +2,12 @@
 
 package memory
 
+import (
+	"reflect"
+	"sync/atomic"
+	"unsafe"
+)
+
 // VerifMuTryLock / VerifMuUnlock let the C13 harness observe whether some method currently holds Storage.mu
 // (read or write): TryLock fails while a CleanupExpired sweep is inside its critical section.
 func (m *Storage) VerifMuTryLock() bool { return m.mu.TryLock() }
@@ -12,4 +18,52 @@ func (m *Storage) VerifLen() int {
 	m.mu.RLock()
 	defer m.mu.RUnlock()
 	return len(m.data)
+}
+
+// VerifMuLock takes Storage.mu for writing: callers arriving now park on it (readers in RLock, writers in Lock).
+func (m *Storage) VerifMuLock() { m.mu.Lock() }
+
+// VerifMuParked reports, while the harness itself holds the write lock, how many readers are parked in RLock and how
+// many writers in Lock.  It reads sync.RWMutex's counters (readerCount, w.state) by reflection; ok=false when the
+// layout is not the expected one (the harness then falls back to waiting a fixed time).
+func (m *Storage) VerifMuParked() (readers int, writers int, ok bool) {
+	defer func() {
+		if recover() != nil {
+			ok = false
+		}
+	}()
+	v := reflect.ValueOf(&m.mu).Elem()
+	rc := v.FieldByName("readerCount")
+	if !rc.IsValid() {
+		return 0, 0, false
+	}
+	f := rc.FieldByName("v")
+	if !f.IsValid() || f.Kind() != reflect.Int32 {
+		return 0, 0, false
+	}
+	n := int(atomic.LoadInt32((*int32)(unsafe.Pointer(f.UnsafeAddr()))))
+	if n < 0 {
+		n += 1 << 30
+	}
+	st, found := findState(v.FieldByName("w"))
+	if !found {
+		return 0, 0, false
+	}
+	s := atomic.LoadInt32((*int32)(unsafe.Pointer(st.UnsafeAddr())))
+	return n, int(s >> 3), true // mutexWaiterShift = 3
+}
+
+func findState(v reflect.Value) (reflect.Value, bool) {
+	if !v.IsValid() || v.Kind() != reflect.Struct {
+		return reflect.Value{}, false
+	}
+	if f := v.FieldByName("state"); f.IsValid() && f.Kind() == reflect.Int32 {
+		return f, true
+	}
+	for i := 0; i < v.NumField(); i++ {
+		if f, ok := findState(v.Field(i)); ok {
+			return f, true
+		}
+	}
+	return reflect.Value{}, false
 }
